@@ -6,8 +6,8 @@ import time
 
 VERIF = os.path.dirname(os.path.dirname(os.path.abspath(__file__)))
 REPLAY = os.path.join(VERIF, 'replay')
-HAVE = {'C01', 'C03', 'C04', 'C05', 'C06', 'C07', 'C08', 'C10', 'C11', 'C12', 'C13', 'C14', 'C15', 'C19', 'C20'}
-RIDS = {'C08': ['C08', 'C08Q'], 'C07': ['C04']}     # replay-crate dispatch ids per property (default: the property id)
+HAVE = {'C01', 'C03', 'C04', 'C05', 'C06', 'C07', 'C08', 'C09', 'C10', 'C11', 'C12', 'C13', 'C14', 'C15', 'C19', 'C20'}
+RIDS = {'C08': ['C08', 'C08Q'], 'C07': ['C07']}     # replay-crate dispatch ids per property (default: the property id)
 _cache = {}
 
 
@@ -52,6 +52,21 @@ def search(pid, seed, tier='quick'):
 
 
 BOUNDED = {
+    'C05': dict(what='the REAL OrderBook / OrderBookSide against a BTreeMap model after every event of crafted and seeded random snapshot / update sequences: levels equal the map, '
+                     'best-first, no duplicate prices, mid / volume-weighted mid price, snapshot(depth) for every depth on asymmetric books (0..4 x 0..4 levels, empty and '
+                     'one-level sides), worst level re-priced then deleted',
+                bound={'quick': '~120k cases', 'thorough': '~300k cases'}),
+    'C09': dict(what='the REAL EngineState (2 exchanges, 3 instruments, 5 assets, same names on both exchanges) through update_from_account / update_from_market: six sets of 2-5 '
+                     'timestamped updates (distinct, tied, repeated values) delivered in every sequence with repetition up to a length bound, streamed or inside full account '
+                     'snapshots, orders untracked / in flight / cancel in flight: after every delivery the held value is the delivered update with the greatest timestamp (ties as '
+                     'the guards say), other items untouched',
+                bound={'quick': '~320k deliveries', 'thorough': '~7.2M deliveries'}),
+    'C07': dict(what='three REAL ExecutionManagers (one per exchange; maps built by the real generate_execution_instrument_map over 6 instruments, index != position, a name shared '
+                     'by two exchanges) against a scripted ExecutionClient under the paused tokio clock: answers immediately / 1 ms / tau-1 / tau (tie) / tau+1 / late / never, Ok and '
+                     'error kinds, untranslatable answers; 1..1000 outstanding requests, every answer order for small batches, Shutdown / stream close mid-flight: exactly one event per '
+                     'accepted request (response iff answered at or before the timeout, else the timeout failure for the ORIGINAL request), attributed to exchange / instrument / cid, '
+                     'arrival order == completion order, nothing after shutdown',
+                bound={'quick': '~20k cases', 'thorough': '~670k cases'}),
     'C11': dict(what='the REAL IndexedInstruments::new / builder / FromIterator on multisets of instrument definitions (spot, perpetual, future, option; settlement and quantity-unit '
                      'assets; 4 exchanges; shared asset names; duplicates) in every insertion order: key == position, values distinct, value set == distinct inputs, look-ups '
                      'mutually inverse, absent keys are errors, every exchange / asset reference inside an instrument resolves, result independent of order and duplicates; the '
